@@ -225,7 +225,7 @@ func (box *Ballotbox) MissingNodes(point base.StagePoint) ([]base.Address, bool,
 		}
 	}
 
-	switch suf, found, err := vr.getSuffrage(); {
+	switch suf, found, err := vr.getSuffrageLocked(); {
 	case err != nil:
 		return nil, false, err
 	case !found:
@@ -968,7 +968,18 @@ func (vr *voterecords) newVoteproof(
 }
 
 func (vr *voterecords) getSuffrage() (base.Suffrage, bool, error) {
+	if vr.getSuffrageFunc == nil { // NOTE already released
+		return nil, false, nil
+	}
+
 	return vr.getSuffrageFunc(vr.sp.Height().SafePrev())
+}
+
+func (vr *voterecords) getSuffrageLocked() (base.Suffrage, bool, error) {
+	vr.RLock()
+	defer vr.RUnlock()
+
+	return vr.getSuffrage()
 }
 
 func (*voterecords) sfs(voted map[string]base.BallotSignFact) (
@@ -1264,6 +1275,10 @@ func (vr *voterecords) voteproofFromBallots(
 		return false
 	}
 
+	if vr.getSuffrageFunc == nil || vr.isValidVoteproof == nil { // NOTE already released
+		return false
+	}
+
 	switch {
 	case !filter(last, vp):
 		return false
@@ -1308,7 +1323,10 @@ var voterecordsPoolPut = func(vr *voterecords) {
 	clear(vr.vps)
 	vr.log = zerolog.Nop()
 
-	voterecordsPool.Put(vr)
+	// NOTE released records are not put back to voterecordsPool; vote,
+	// MissingNodes or deferred counting of other goroutine may still hold the
+	// record and it should stay released instead of becoming the record of
+	// another stage point under their hands.
 }
 
 func sortBallotSignFactsByExpels(
